@@ -809,7 +809,7 @@ public:
 
         auto* f = data() + pos;
         auto* l = f + etl::min(count, size() - pos);
-        detail::str_replace(f, l, str.begin(), str.end());
+        replace_impl(f, l, str.begin(), str.end());
         return *this;
     }
 
@@ -820,7 +820,7 @@ public:
     {
         auto* f = to_mutable_iterator(first);
         auto* l = to_mutable_iterator(last);
-        detail::str_replace(f, l, str.begin(), str.end());
+        replace_impl(f, l, str.begin(), str.end());
         return *this;
     }
 
@@ -836,7 +836,7 @@ public:
         auto* l        = f + etl::min(count, size() - pos);
         auto const* sf = str.begin() + pos2;
         auto const* sl = sf + etl::min(count2, str.size() - pos2);
-        detail::str_replace(f, l, sf, sl);
+        replace_impl(f, l, sf, sl);
         return *this;
     }
 
@@ -846,7 +846,7 @@ public:
 
         auto* f = data() + pos;
         auto* l = f + etl::min(count, size() - pos);
-        detail::str_replace(f, l, str, next(str, count2));
+        replace_impl(f, l, str, next(str, count2));
         return *this;
     }
 
@@ -855,7 +855,7 @@ public:
     {
         auto* f = to_mutable_iterator(first);
         auto* l = to_mutable_iterator(last);
-        detail::str_replace(f, l, str, next(str, count2));
+        replace_impl(f, l, str, next(str, count2));
         return *this;
     }
 
@@ -865,7 +865,7 @@ public:
 
         auto* f = data() + pos;
         auto* l = f + etl::min(count, size() - pos);
-        detail::str_replace(f, l, str, next(str, traits_type::length(str)));
+        replace_impl(f, l, str, next(str, traits_type::length(str)));
         return *this;
     }
 
@@ -873,7 +873,7 @@ public:
     {
         auto* f = to_mutable_iterator(first);
         auto* l = to_mutable_iterator(last);
-        detail::str_replace(f, l, str, next(str, traits_type::length(str)));
+        replace_impl(f, l, str, next(str, traits_type::length(str)));
         return *this;
     }
 
@@ -1297,6 +1297,15 @@ private:
         TETL_PRECONDITION(newSize <= Capacity);
         _storage.set_size(newSize);
         unsafe_at(newSize) = Char(0);
+    }
+
+    constexpr auto replace_impl(iterator f, iterator l, const_pointer sf, const_pointer sl) -> void
+    {
+        // the replacement may point into this string (s.replace(2, 3, s, 0, 3)): it is copied before the first
+        // character is overwritten, like assign does
+        auto const count = etl::min(static_cast<size_type>(l - f), static_cast<size_type>(sl - sf));
+        auto const tmp   = basic_inplace_string{sf, count};
+        detail::str_replace(f, l, tmp.begin(), tmp.end());
     }
 
     constexpr auto insert_impl(iterator pos, const_pointer text, size_type count) -> void
